@@ -575,8 +575,8 @@ pub fn run_case(o: &mut Obs, spec: &WSpec, ops: &[WOp], path: usize, use_writer:
         }
         let gname = row.name.replacen("put_", "get_", 1);
         if let Some(g) = grows.iter().find(|g| g.name == gname) {
-            let leaked: &'static [u8] = Box::leak(written[off..off + w].to_vec().into_boxed_slice());
-            let mut b: super::BX = Box::new(leaked);
+            // (a Bytes, not a leaked &'static [u8]: long runs must not fill the ledger's table with leaked blocks)
+            let mut b: super::BX = Box::new(bytes::Bytes::copy_from_slice(&written[off..off + w]));
             let back = match catch(|| (g.get[0])(&mut b, nb)) {
                 Ok(v) => v,
                 Err(e) => {
